@@ -94,3 +94,107 @@ Definition upload_file_ids : list (string * N) := [
   ("app6/update.spec", 0x32); ("app6/update.tar.gz", 0x33);
   ("app7/update.spec", 0x34); ("app7/update.tar.gz", 0x35)
 ]%string.
+
+(* ------------------------------------------------------------------ C.5 result codes (ZVT ch. 10)
+   (S) for the set of codes and which meaning belongs to which code; (C) for the exact English wording,
+   which is pinned to the crate's text at the baseline commit (the specification's own wording is not
+   reproducible from memory) — so a later edit that attaches a message to another code, drops a code or
+   rewords a message is a changed table and an obligation of C20. *)
+Definition result_codes : list (N * string) := [
+  (100, "card not readable (LRC-/parity-error)");
+  (101, "card-data not present (neither track-data nor chip found)");
+  (102, "processing-error (also for problems with card-reader mechanism)");
+  (103, "function not permitted for ec- and Maestro-cards");
+  (104, "function not permitted for credit- and tank-cards");
+  (106, "turnover-file full");
+  (107, "function deactivated (PT not registered)");
+  (108, "abort via timeout or abort-key");
+  (110, "card in blocked-list (response to command 06 E4)");
+  (111, "wrong currency");
+  (113, "credit not sufficient (chip-card)");
+  (114, "chip error");
+  (115, "card-data incorrect (e.g. country-key check, checksum-error)");
+  (116, "DUKPT engine exhausted");
+  (117, "text not authentic");
+  (118, "PAN not in white list");
+  (119, "end-of-day batch not possible");
+  (120, "card expired");
+  (121, "card not yet valid");
+  (122, "card unknown");
+  (123, "fallback to magnetic stripe for girocard not possible");
+  (124, "fallback to magnetic stripe not possible (used for non girocard cards)");
+  (125, "communication error (communication module does not answer or is not present)");
+  (126, "fallback to magnetic stripe not possible, debit advice possible (used only for giro-card)");
+  (131, "function not possible");
+  (133, "key missing");
+  (137, "PIN-pad defective");
+  (154, "ZVT protocol error. e. g. parsing error, mandatory message element missing");
+  (155, "error from dial-up/communication fault");
+  (156, "please wait");
+  (160, "receiver not ready");
+  (161, "remote station does not respond");
+  (163, "no connection");
+  (164, "submission of Geldkarte not possible");
+  (165, "function not allowed due to PCI-DSS/P2PE rules");
+  (177, "memory full");
+  (178, "merchant-journal full");
+  (180, "already reversed");
+  (181, "reversal not possible");
+  (183, "pre-authorization incorrect (amount too high) or amount wrong");
+  (184, "error pre-authorization");
+  (191, "voltage supply to low (external power supply)");
+  (192, "card locking mechanism defective");
+  (193, "merchant-card locked");
+  (194, "diagnosis required");
+  (195, "maximum amount exceeded");
+  (196, "card-profile invalid. New card-profiles must be loaded.");
+  (197, "payment method not supported");
+  (198, "currency not applicable");
+  (200, "amount too small");
+  (201, "max. transaction-amount too small");
+  (203, "function only allowed in EURO");
+  (204, "printer not ready");
+  (205, "Cashback not possible");
+  (210, "function not permitted for service-cards/bank-customer-cards");
+  (220, "card inserted");
+  (221, "error during card-eject (for motor-insertion reader)");
+  (222, "error during card-insertion (for motor-insertion reader)");
+  (224, "remote-maintenance activated");
+  (226, "card-reader does not answer / card-reader defective");
+  (227, "shutter closed");
+  (228, "Terminal activation required");
+  (231, "min. one goods-group not found");
+  (232, "no goods-groups-table loaded");
+  (233, "restriction-code not permitted");
+  (234, "card-code not permitted (e.g. card not activated via Diagnosis)");
+  (235, "function not executable (PIN-algorithm unknown)");
+  (236, "PIN-processing not possible");
+  (237, "PIN-pad defective");
+  (240, "open end-of-day batch present");
+  (241, "ec-cash/Maestro offline error");
+  (245, "OPT-error");
+  (246, "OPT-data not available (= OPT personalization required)");
+  (250, "error transmitting offline-transactions (clearing error)");
+  (251, "turnover data-set defective");
+  (252, "necessary device not present or defective");
+  (253, "baudrate not supported");
+  (254, "register unknown");
+  (255, "system error (= other/unknown error), See TLV tags 1F16 and 1F17")
+]%string.
+
+(* ------------------------------------------------------------------ constants of the client (feig.rs / stream.rs / config.rs) *)
+Definition client_constants : list (string * N) := [
+  ("zvt_feig_terminal::feig::CARD_TYPE", 0x10);                     (* chip card, ZVT table 6            S *)
+  ("zvt_feig_terminal::feig::SHORT_CARD_READING_CONTROL", 0xD0);    (* TLV 1F15                           C *)
+  ("zvt_feig_terminal::feig::ALLOWED_CARDS", 0x07);                 (* TLV 1F60                           C *)
+  ("zvt_feig_terminal::feig::DIALOG_CONTROL", 0x02);                (* BMP FC                             C *)
+  ("zvt_feig_terminal::feig::PAYMENT_TYPE", 0x40);                  (* payment type by PT decision        S *)
+  ("zvt_feig_terminal::stream::outer::inner::CONFIG_BYTE", 0xDE);   (* registration config byte           C *)
+  ("zvt_feig_terminal::stream::TIMEOUT", 60);                       (* seconds per packet                 C *)
+  ("zvt_feig_terminal::stream::.take", 20);                         (* retry budget                       C *)
+  ("zvt_feig_terminal::stream::.throttle", 2);                      (* seconds between attempts           C *)
+  ("zvt_feig_terminal::feig::.take", 20);
+  ("zvt_feig_terminal::feig::.throttle", 2)
+]%string.
+Definition client_str_constants : list (string * string) := [("zvt_feig_terminal::feig::BMP_PREFIX", "AC")]%string.
+Definition currencies_iso4217 : list (string * N) := [("SEK", 752); ("GBP", 826); ("EUR", 978)]%string.   (* S *)
